@@ -8,12 +8,16 @@ Require Import MS.Base.GoInt MS.Base.Res MS.Base.F32 MS.Base.F64 MS.Model.Uda MS
 Local Open Scope Z_scope.
 
 (** [fine_bars cd1 rows]: the output of a candler of timeframe cd1 on [rows], read back as input bars
-    (Epoch = window start in seconds, Open, High, Low, Close).  [divides cd1 cd2]: the fine window length
-    is a whole number of seconds and divides the coarse window length (for "D": 24 h, in UTC).
-    Then the coarse candle of window W built from the fine candles has the same open and close and the
-    same high and low (as numbers: Go's ==) as the coarse candle built from the rows directly — for all
-    row lists with distinct timestamps and NaN-free prices, none stamped in the window of Go's zero time. *)
-Theorem C22_compose : forall cd1 cd2 rows, divides cd1 cd2 -> rows_ok rows ->
+    (Epoch = window start in seconds, Open, High, Low, Close).
+
+    General form — ANY two timeframes in ANY system timezone (a candle duration carries its local-midnight
+    function): if window starts are fixed points ([idem]), the fine truncation is monotone and yields whole
+    seconds, and the windows NEST (hypothesis [nests cd1 cd2]: truncating a fine window start to the coarse
+    timeframe = truncating the instant), then the coarse candle of window W built from the fine candles has the
+    same open and close and the same high and low (as numbers: Go's ==) as the one built from the rows — for all
+    row lists with distinct timestamps and NaN-free prices, none in a fine window starting at Go's zero time. *)
+Theorem C22_compose : forall cd1 cd2 rows,
+  idem cd1 -> idem cd2 -> mono cd1 -> nests cd1 cd2 -> whole_sec cd1 -> rows_ok rows ->
   (forall r, In r rows -> truncate cd1 (b_t r) <> zero_time) ->
   forall W, (exists r, In r rows /\ truncate cd2 (b_t r) = W) ->
   NoDup (map b_t rows) -> f32_nonan (map b_h rows) = true -> f32_nonan (map b_l rows) = true ->
@@ -22,27 +26,78 @@ Proof. exact compose_ohlc. Qed.
 Print Assumptions C22_compose.
 
 (** both routes produce candles for exactly the same coarse windows *)
-Theorem C22_windows : forall cd1 cd2 rows W, divides cd1 cd2 -> rows_ok rows ->
+Theorem C22_windows : forall cd1 cd2 rows W,
+  idem cd1 -> idem cd2 -> mono cd1 -> nests cd1 cd2 -> whole_sec cd1 -> rows_ok rows ->
   ((exists fb, In fb (fine_bars cd1 rows) /\ truncate cd2 (b_t fb) = W) <-> (exists r, In r rows /\ truncate cd2 (b_t r) = W)).
 Proof. exact compose_windows. Qed.
 Print Assumptions C22_windows.
 
 (** the executable pipeline the harness drives — the fine candler's output column series mapped as
     Open/High/Low/Close into a coarse CandleCandler — computes exactly the candle map of [fine_bars] *)
-Theorem C22_pipeline : forall cd1 cd2 rows, rows <> [] ->
+Theorem C22_pipeline : forall cd1 cd2 rows, idem cd1 -> rows <> [] ->
   run_accum cd2 [] [out_to_input (output [] [] (accum_all cd1 0 [rows]))] = Ok (accum_all cd2 0 [fine_bars cd1 rows]).
 Proof. exact pipeline_is_fine_bars. Qed.
 Print Assumptions C22_pipeline.
 
-(** windows nest when the fine length divides the coarse one (proved, not assumed) *)
-Theorem C22_nest : forall cd1 cd2 t, divides cd1 cd2 -> truncate cd2 (truncate cd1 t) = truncate cd2 t.
-Proof. exact truncate_nest. Qed.
-Print Assumptions C22_nest.
+(** The hypotheses are PROVED for zones at a fixed UTC offset [off] (UTC: off = 0) when [divides_in_zone]: the
+    fine window length is a whole number of seconds and divides the coarse one, and the grid origins differ by a
+    multiple of it — for Sec/Min/H under D that means: the zone offset is a multiple of the fine duration. *)
+Theorem C22_zone : forall off cd1 cd2, divides_in_zone off cd1 cd2 ->
+  idem cd1 /\ idem cd2 /\ mono cd1 /\ nests cd1 cd2 /\ whole_sec cd1.
+Proof.
+  intros off cd1 cd2 D. repeat split;
+    [exact (zone_idem1 off cd1 cd2 D) | exact (zone_idem2 off cd1 cd2 D) | exact (zone_mono1 off cd1 cd2 D)
+    | exact (zone_nests off cd1 cd2 D) | exact (zone_whole_sec1 off cd1 cd2 D)].
+Qed.
+Print Assumptions C22_zone.
 
-(** [divides] for concrete timeframes, decided by computation *)
-Theorem C22_dividesb_sound : forall cd1 cd2, dividesb cd1 cd2 = true -> divides cd1 cd2.
-Proof. exact dividesb_sound. Qed.
+(** in UTC dividing window lengths suffice (0001-01-01 .. 1970-01-01 is a whole number of days) *)
+Theorem C22_utc : forall cd1 cd2, divides cd1 cd2 -> divides_in_zone 0 cd1 cd2.
+Proof. exact divides_utc. Qed.
+Print Assumptions C22_utc.
+
+(** [divides_in_zone] for concrete timeframes and offsets, decided by computation *)
+Theorem C22_dividesb_sound : forall off m1 s1 m2 s2,
+  dividesb_zone off (cd_of_zone off m1 s1) (cd_of_zone off m2 s2) = true ->
+  divides_in_zone off (cd_of_zone off m1 s1) (cd_of_zone off m2 s2).
+Proof. exact dividesb_zone_of. Qed.
 Print Assumptions C22_dividesb_sound.
+
+Definition C22_tick (t : Z) (p : f32) : bar := {| b_t := t; b_o := p; b_h := p; b_l := p; b_c := p; b_acc := [] |}.
+
+(** ---- "whenever the fine timeframe divides the coarse one" is refuted outside such zones ----
+    Zone at UTC+00:30, 1H -> 1D: local midnight is 23:30 UTC, inside the (absolute) hour window 23:00-24:00 UTC.
+    Ticks at 23:10 UTC (price 10, local day 1) and 23:40 UTC (price 5, local day 2): directly, day 1 has Low 10
+    and day 2 exists; through the hourly candle (stamped 23:00 UTC = day 1) day 1 gets Low 5 and day 2 no candle. *)
+Definition C22_full_zone : Prop := forall off m1 s1 m2 s2 rows W,
+  let cd1 := cd_of_zone off m1 s1 in let cd2 := cd_of_zone off m2 s2 in
+  0 < eff_dur cd1 -> (exists k, 0 < k /\ eff_dur cd2 = k * eff_dur cd1) -> rows_ok rows ->
+  (forall r, In r rows -> truncate cd1 (b_t r) <> zero_time) ->
+  (exists r, In r rows /\ truncate cd2 (b_t r) = W) -> NoDup (map b_t rows) ->
+  f32_nonan (map b_h rows) = true -> f32_nonan (map b_l rows) = true ->
+  f32_eq (c_l (window_candle cd2 0 W (fine_bars cd1 rows))) (c_l (window_candle cd2 0 W rows)) = true.
+
+Definition C22_zone_witness : list bar :=
+  [C22_tick (1600038600 * NS) (f32_of_Z 10); C22_tick (1600040400 * NS) (f32_of_Z 5)].   (* 2020-09-13 23:10 and 23:40 UTC *)
+
+Theorem C22_refuted_zone : ~ C22_full_zone.
+Proof.
+  intros H. specialize (H (1800 * NS) 1 "H"%string 1 "D"%string C22_zone_witness (1599953400 * NS)). cbv zeta in H.
+  assert (P : 0 < eff_dur (cd_of_zone (1800 * NS) 1 "H")) by reflexivity.
+  assert (K : exists k, 0 < k /\ eff_dur (cd_of_zone (1800 * NS) 1 "D") = k * eff_dur (cd_of_zone (1800 * NS) 1 "H")).
+  { exists 24. split; reflexivity. }
+  assert (OK : rows_ok C22_zone_witness).
+  { split; [|vm_compute; discriminate]. intros r [E|[E|[]]]; subst r; cbn [b_t C22_tick]; vm_compute; discriminate. }
+  assert (NZ : forall r, In r C22_zone_witness -> truncate (cd_of_zone (1800 * NS) 1 "H") (b_t r) <> zero_time).
+  { intros r [E|[E|[]]]; subst r; cbn [b_t C22_tick]; vm_compute; discriminate. }
+  assert (EX : exists r, In r C22_zone_witness /\ truncate (cd_of_zone (1800 * NS) 1 "D") (b_t r) = 1599953400 * NS).
+  { eexists. split; [left; reflexivity | vm_compute; reflexivity]. }
+  assert (ND : NoDup (map b_t C22_zone_witness)).
+  { cbn [map b_t C22_tick C22_zone_witness]. repeat constructor; cbn [In]; intros X;
+      repeat (destruct X as [X|X]; [vm_compute in X; discriminate X|]); exact X. }
+  specialize (H P K OK NZ EX ND eq_refl eq_refl). vm_compute in H. discriminate H.
+Qed.
+Print Assumptions C22_refuted_zone.
 
 (** ---- the statement for ALL row sets is refuted by NaN prices ---- *)
 Definition C22_full : Prop := forall cd1 cd2 rows W, divides cd1 cd2 -> rows_ok rows ->
@@ -50,16 +105,20 @@ Definition C22_full : Prop := forall cd1 cd2 rows W, divides cd1 cd2 -> rows_ok 
   (exists r, In r rows /\ truncate cd2 (b_t r) = W) -> NoDup (map b_t rows) ->
   f32_eq (c_h (window_candle cd2 0 W (fine_bars cd1 rows))) (c_h (window_candle cd2 0 W rows)) = true.
 
-Definition C22_tick (t : Z) (p : f32) : bar := {| b_t := t; b_o := p; b_h := p; b_l := p; b_c := p; b_acc := [] |}.
 (** 1Min -> 5Min: minute 1 holds 3, minute 2 holds NaN then 5.  Directly the 5-minute high is 5; the
     second minute candle has high NaN (NaN came first), which [>] never promotes over 3: high 3. *)
 Definition C22_witness : list bar :=
   [C22_tick (1600000020 * NS) (f32_of_Z 3); C22_tick (1600000080 * NS) (f32_of_bits 0x7fc00000); C22_tick (1600000100 * NS) (f32_of_Z 5)].
 
+Lemma C22_div_1_5 : divides (cd_of 1 "Min"%string) (cd_of 5 "Min"%string).
+Proof.
+  split; [reflexivity|]. split; [reflexivity|]. split; [reflexivity|].
+  split; [exists 60; reflexivity | exists 5; split; reflexivity].
+Qed.
+
 Theorem C22_refuted : ~ C22_full.
 Proof.
-  intros H. specialize (H (cd_of 1 "Min"%string) (cd_of 5 "Min"%string) C22_witness (1599999900 * NS)).
-  assert (D : divides (cd_of 1 "Min"%string) (cd_of 5 "Min"%string)) by (apply C22_dividesb_sound; vm_compute; reflexivity).
+  intros H. specialize (H (cd_of 1 "Min"%string) (cd_of 5 "Min"%string) C22_witness (1599999900 * NS) C22_div_1_5).
   assert (OK : rows_ok C22_witness).
   { split; [|vm_compute; discriminate]. intros r [E|[E|[E|[]]]]; subst r; cbn [b_t C22_tick]; vm_compute; discriminate. }
   assert (NZ : forall r, In r C22_witness -> truncate (cd_of 1 "Min"%string) (b_t r) <> zero_time).
@@ -69,19 +128,22 @@ Proof.
   assert (ND : NoDup (map b_t C22_witness)).
   { cbn [map b_t C22_tick C22_witness]. repeat constructor; cbn [In]; intros K;
       repeat (destruct K as [K|K]; [vm_compute in K; discriminate K|]); exact K. }
-  specialize (H D OK NZ EX ND). vm_compute in H. discriminate H.
+  specialize (H OK NZ EX ND). vm_compute in H. discriminate H.
 Qed.
 Print Assumptions C22_refuted.
 
-(** Non-vacuity: concrete timeframes and rows meet the hypotheses of C22_compose. *)
+(** Non-vacuity: concrete timeframes, zones and rows meet the hypotheses of C22_compose via C22_zone. *)
 Example C22_nonvacuous :
   let rows := [C22_tick (1600000020 * NS) (f32_of_Z 3); C22_tick (1600000080 * NS) (f32_of_Z 9); C22_tick (1600000100 * NS) (f32_of_Z 5);
                C22_tick (1600000300 * NS) (f32_of_Z 4)] in
-  divides (cd_of 1 "Min"%string) (cd_of 5 "Min"%string) /\ divides (cd_of 15 "Min"%string) (cd_of 1 "D"%string)
+  divides_in_zone 0 (cd_of 1 "Min"%string) (cd_of 5 "Min"%string)
+  /\ divides_in_zone 0 (cd_of 15 "Min"%string) (cd_of 1 "D"%string)
+  /\ divides_in_zone (19800 * NS) (cd_of_zone (19800 * NS) 30 "Min"%string) (cd_of_zone (19800 * NS) 1 "D"%string)   (* UTC+05:30, 30Min -> 1D *)
   /\ rows_ok rows /\ NoDup (map b_t rows) /\ f32_nonan (map b_h rows) = true
   /\ List.length (fine_bars (cd_of 1 "Min"%string) rows) = 3%nat.
 Proof.
-  cbv zeta. split; [|split; [|split; [|split; [|split]]]].
+  cbv zeta. split; [|split; [|split; [|split; [|split; [|split]]]]].
+  - apply C22_dividesb_sound. vm_compute. reflexivity.
   - apply C22_dividesb_sound. vm_compute. reflexivity.
   - apply C22_dividesb_sound. vm_compute. reflexivity.
   - split; [|vm_compute; discriminate]. intros r [E|[E|[E|[E|[]]]]]; subst r; cbn [b_t C22_tick]; vm_compute; discriminate.
